@@ -560,3 +560,6 @@ func ConstValInt(o types.Object) (int64, bool) {
 	}
 	return constant.Int64Val(v)
 }
+
+// Const re-exports types.Const.
+type Const = types.Const
